@@ -16,6 +16,20 @@ pub struct World {
 
 impl World {
     pub fn new(ctx: SharedCtx, params: ServerParams, cfg: NetCfg) -> World {
+        // An ECDSA signature is 70..72 bytes long at OpenSSL's whim, so with the EC fixture the raw size of the
+        // server's handshake flight varies from run to run. Transport modes that draw from the tape once per
+        // read/write would then consume a varying number of choices: with that certificate only draw-free
+        // modes are used (every other fixture is RSA: constant sizes, exactly repeatable).
+        let mut cfg = cfg;
+        if super::server::FIXTURES[params.cert % super::server::FIXTURES.len()].starts_with("ec") {
+            use crate::wire::{ReadMode, WriteMode};
+            if cfg.read_mode == ReadMode::Random { cfg.read_mode = ReadMode::Cap(3); }
+            if cfg.write_mode == WriteMode::Random { cfg.write_mode = WriteMode::Cap(5); }
+            if cfg.eager != 0 { cfg.eager = 16; }
+            cfg.eintr_read = 0;
+            cfg.eintr_write = 0;
+            cfg.zero_write = 0;
+        }
         let wire = Rc::new(RefCell::new(Wire::new()));
         let server = Rc::new(RefCell::new(Server::new(wire.clone(), ctx.clone(), params)));
         World { ctx, wire, cfg: Rc::new(RefCell::new(cfg)), server }
